@@ -592,6 +592,9 @@ def ctxArg (s : String) : M (Option (List UInt8)) :=
 
 def okOrErr (b : Bool) : M Resp := pure (if b then Resp.ok [] else Resp.err)
 
+/-- the tag of the second context digest of the harness, `TaggedSha512` -/
+def altTag : List UInt8 := "alt".toUTF8.toList
+
 def ed25519Op (legacy : Bool) (op : String) (args : List String) : M Resp := do
   let ops := fastOps
   match op, args with
@@ -614,6 +617,31 @@ def ed25519Op (legacy : Bool) (op : String) (args : List String) : M Resp := do
     match Ed25519.signPhWith ops (← bytesN 32 seed) (← hexArg msg) (some (← hexArg ctx)) with
     | some sig => ok [hexEncode sig]
     | none => pure Resp.err
+  -- hazmat functions with the context digest `H'(m) = SHA-512("alt" ‖ m)`: since every challenge / nonce hash of the specification is
+  -- `H(dom ‖ …)`, instantiating `H'` is the specification with the domain prefix `"alt" ‖ dom`
+  | "eds.raw_sign_alt", [esk, msg, vk] => do
+    let esk ← bytesN 64 esk
+    let msg ← hexArg msg
+    let vk ← bytesN 32 vk
+    if (decompress vk).isNone then return Resp.err
+    let (a, pre) := Ed25519.expandedFromBytes esk
+    ok [hexEncode (Ed25519.rawSignWith ops altTag a pre msg vk)]
+  | "eds.raw_verify_alt", [vk, msg, sig] =>
+    okOrErr (Ed25519.verifyCoreWith ops legacy false altTag (← bytesN 32 vk) (← hexArg msg) (← bytesN 64 sig))
+  | "eds.raw_sign_ph_alt", [esk, msg, vk, ctx] => do
+    let esk ← bytesN 64 esk
+    let msg ← hexArg msg
+    let vk ← bytesN 32 vk
+    let c := (← ctxArg ctx).getD []
+    if (decompress vk).isNone then return Resp.err
+    if c.length > 255 then return Resp.err
+    let (a, pre) := Ed25519.expandedFromBytes esk
+    ok [hexEncode (Ed25519.rawSignWith ops (altTag ++ Ed25519.dom2 1 c) a pre (sha512 msg) vk)]
+  | "eds.raw_verify_ph_alt", [vk, msg, ctx, sig] => do
+    let c := (← ctxArg ctx).getD []
+    if c.length > 255 then return Resp.err
+    okOrErr (Ed25519.verifyCoreWith ops legacy false (altTag ++ Ed25519.dom2 1 c) (← bytesN 32 vk) (sha512 (← hexArg msg))
+      (← bytesN 64 sig))
   | "eds.raw_sign", [esk, msg, vk] => do
     let esk ← bytesN 64 esk
     let msg ← hexArg msg
@@ -734,7 +762,8 @@ def groupOp (op : String) (args : List String) : M Resp := do
     let j ← natArg j
     if j > 3 then badreq
     match risDecode (← bytesN 32 R) with
-    | some p => ok [fmtBool (risEncode p == risEncode EPt.zero), risOut (EPt.double p), risOut EPt.zero, risOut EPt.basepoint]
+    | some p => ok [fmtBool (risEncode p == risEncode EPt.zero), risOut (EPt.double p), risOut EPt.zero, risOut EPt.basepoint,
+        fmtBool true, risOut p, risOut p]
     | none => pure Resp.none
   | "grp.clear_cofactor", [P] => ok [ptOut (EPt.mulByPow2 3 (← ptArg P))]
   | "grp.is_torsion_free", [P] => ok [fmtBool (EPt.isTorsionFree (← ptArg P))]
